@@ -255,6 +255,26 @@ pub fn run(args: &Args) -> i32 {
             b1s.push(rng.gen_range(301..60_000));
         }
     }
+    // B1 = q + 1 for every proper prime power q = p^k (k >= 2) up to a limit: the smallest bound that promises q, i.e. the
+    // only bound at which an exponent computed one too small (rounding of a logarithm, < versus <=) shows
+    {
+        let lim: u64 = if thorough { 1_100_000 } else { 120_000 };
+        let mut p = 2u64;
+        while p * p <= lim {
+            if (2..p).all(|d| p % d != 0) {
+                let mut q = p * p;
+                while q <= lim {
+                    if q + 1 > 300 {
+                        b1s.push(q + 1);
+                    }
+                    q *= p;
+                }
+            }
+            p += 1;
+        }
+        b1s.sort();
+        b1s.dedup();
+    }
     let maxb1 = *b1s.iter().max().unwrap() as usize;
     let trial = own_primes(2 * maxb1 + 1000);
     for &b1 in &b1s {
